@@ -85,7 +85,83 @@ func c10Trial(c *rt.Ctx, sub int, r *rand.Rand, G, procs, opsPer int, yieldMode 
 		var ops []c10Op
 		for k := 0; k < opsPer; k++ {
 			id := g*100000 + k
-			switch rr.Intn(13) {
+			switch rr.Intn(17) {
+			case 13:
+				// stream decodes of slices (pooled scratch arrays), a stream that ends right behind an
+				// element first; the payload carries the operation's id
+				ops = append(ops, c10Op{name: "Decoder:slices", run: func() (string, string) {
+					var bad []int
+					e0 := gojson.NewDecoder(strings.NewReader(fmt.Sprintf("[%d,%d,%d", id, id+1, id+2))).Decode(&bad)
+					var a []int
+					e1 := gojson.NewDecoder(strings.NewReader(fmt.Sprintf("[%d,%d,%d,%d,%d]", id, id+1, id+2, id+3, id+4))).Decode(&a)
+					var ss []string
+					e2 := gojson.NewDecoder(strings.NewReader(fmt.Sprintf(`["s%d","t%d","u%d"]`, id, id, id))).Decode(&ss)
+					var qs []QT
+					e3 := gojson.NewDecoder(strings.NewReader(fmt.Sprintf(`[{"A":%d,"B":"x"},{"A":%d,"D":[%d]}]`, id, id+1, id))).Decode(&qs)
+					got := fmt.Sprint(e0 != nil, a, errS(e1), ss, errS(e2))
+					if len(qs) == 2 {
+						got += fmt.Sprint(qs[0].A, qs[0].B, qs[1].A, qs[1].D, errS(e3))
+					}
+					return got, fmt.Sprint(true, []int{id, id + 1, id + 2, id + 3, id + 4}, "", []string{fmt.Sprint("s", id), fmt.Sprint("t", id), fmt.Sprint("u", id)}, "") + fmt.Sprint(id, "x", id+1, []int{id}, "")
+				}})
+			case 14:
+				ops = append(ops, c10Op{name: "Unmarshal:slices", run: func() (string, string) {
+					var bad []int
+					e0 := gojson.Unmarshal([]byte(fmt.Sprintf("[%d,%d", id, id+1)), &bad)
+					a := make([]int, 1, 8)
+					e1 := gojson.Unmarshal([]byte(fmt.Sprintf("[%d,%d,%d]", id, id+1, id+2)), &a)
+					var m map[string][]int
+					e2 := gojson.Unmarshal([]byte(fmt.Sprintf(`{"k":[%d,%d],"l":[%d]}`, id, id, id+9)), &m)
+					return fmt.Sprint(e0 != nil, a, errS(e1), m["k"], m["l"], errS(e2)), fmt.Sprint(true, []int{id, id + 1, id + 2}, "", []int{id, id}, []int{id + 9}, "")
+				}})
+			case 15:
+				// large texts through the utilities: long scans are where a goroutine is preempted
+				if rr.Intn(8) != 0 {
+					continue
+				}
+				ops = append(ops, c10Op{name: "Compact+Indent:large", run: func() (string, string) {
+					var sb strings.Builder
+					sb.WriteString(`{ "id" : ` + fmt.Sprint(id) + ` , "rows" : [`)
+					for i := 0; i < 6000; i++ {
+						if i > 0 {
+							sb.WriteString(" ,\n")
+						}
+						fmt.Fprintf(&sb, `{ "i" : %d , "o" : %d , "s" : "row %d of %d" }`, i, id, i, id)
+					}
+					sb.WriteString(" ] }")
+					src := []byte(sb.String())
+					var ga, sa bytes.Buffer
+					ga.WriteString("keep:")
+					sa.WriteString("keep:")
+					e1 := gojson.Compact(&ga, src)
+					e2 := stdjson.Compact(&sa, src)
+					if e1 != nil || e2 != nil || !bytes.Equal(ga.Bytes(), sa.Bytes()) {
+						return fmt.Sprintf("compact differs (err %v %v, %d vs %d bytes, first difference at %d)", e1, e2, ga.Len(), sa.Len(), firstDiff(ga.Bytes(), sa.Bytes())), "equal"
+					}
+					var gi, si bytes.Buffer
+					e1 = gojson.Indent(&gi, ga.Bytes()[5:], "", " ")
+					e2 = stdjson.Indent(&si, sa.Bytes()[5:], "", " ")
+					if e1 != nil || e2 != nil || !bytes.Equal(gi.Bytes(), si.Bytes()) {
+						return fmt.Sprintf("indent differs (err %v %v, first difference at %d)", e1, e2, firstDiff(gi.Bytes(), si.Bytes())), "equal"
+					}
+					return "equal", "equal"
+				}})
+			case 16:
+				if rr.Intn(8) != 0 {
+					continue
+				}
+				ops = append(ops, c10Op{name: "Marshal:large", run: func() (string, string) {
+					rows := make([]QT, 3000)
+					for i := range rows {
+						rows[i] = QT{A: id, B: fmt.Sprint("row", i), D: []int{i, id}}
+					}
+					b, err := gojson.Marshal(rows)
+					w, _ := stdjson.Marshal(rows)
+					if err != nil || !bytes.Equal(b, w) {
+						return fmt.Sprintf("differs (err %v, first difference at %d)", err, firstDiff(b, w)), "equal"
+					}
+					return "equal", "equal"
+				}})
 			case 0, 1, 2:
 				if len(fresh) == 0 {
 					continue
@@ -329,4 +405,13 @@ func init() {
 			}
 		},
 	})
+}
+
+func firstDiff(a, b []byte) int {
+	for i := 0; i < len(a) && i < len(b); i++ {
+		if a[i] != b[i] {
+			return i
+		}
+	}
+	return minInt(len(a), len(b))
 }
